@@ -78,8 +78,8 @@ func intersect(a, b lockset) lockset {
 type frame struct {
 	site   ssa.Instruction // root-function instruction that led into this frame (nil in the root frame)
 	fn     *ssa.Function
-	recv   string                   // object name of *receiver ("recv", "recv.config", "" when unknown)
-	free   map[*ssa.FreeVar]string  // object name the free variable points to
+	recv   string                    // object name of *receiver ("recv", "recv.config", "" when unknown)
+	free   map[*ssa.FreeVar]string   // object name the free variable points to
 	params map[*ssa.Parameter]string // pointer parameters bound to objects
 }
 
